@@ -265,6 +265,8 @@ static econf_err pr_key_file(struct econf_file *key_file)
             if (value != NULL) {
 	      size_t v = 0;
 	      printf("%s = ", keys[k]);
+	      if (value->values[0] == 0)
+		printf("\n"); /* a key without value still gets a line of its own */
 	      while (value->values[v] != 0) {
 		if (v==0) {
 		  printf("%s\n", value->values[v]);
